@@ -492,7 +492,9 @@ class TopCollector(ScoredCollector):
                 items.pop(i)
                 # Restore the heap invariant
                 heapify(items)
-                self.minscore = items[0][0] if items else 0
+                # The list is only a lower bound on useful scores when full
+                full = len(items) >= self.limit
+                self.minscore = items[0][0] if full else 0
                 return
 
     def results(self):
